@@ -990,14 +990,20 @@ def main(tier: str) -> int:
         "the model (#copy, Debug.trackFunction, header post_process, #show_private_command, in-place deletes) is reported, not compared",
         "reference syntax (`function <loc>`, `schedule function <loc>`, `function #<tag>`, tag values, advancement rewards) and 'legal resource "
         "location' ([a-z0-9_.-] segments, non-empty, not dots only) are written specifications (Minecraft itself is not available)",
-        "built-in functions and the statement compilers are NOT modelled: their output is covered by evaluating disc/closedb in Coq on their logged "
+        "built-in functions are NOT modelled: their output is covered by evaluating disc/closedb in Coq on their logged "
         "sequences and by the direct scan of every real output (level for 'all built-ins': correspondence only)",
+        "core-language closure (C07_core_*): the statement compilers are the models of properties C04/C05/C06 (Model/IfElse.v, Model/Loop.v, "
+        "Model/Switch.v, MC/Print.v), tied to the repo by THEIR checks (exact emitted text), not re-tied here; closure of their output is proved "
+        "for every program; the step to the text machine (C07_core_*_machine_closed) keeps as hypotheses text_fromb (every stored line is a "
+        "printed command of the lowered code whose scan shows only its own calls), definedness of the calls the source itself makes, and "
+        "json_discb / paths_disc / tag_free",
         "only ASCII names (Python str.lower() on non-ASCII letters is outside Model/ResLoc.v)",
         "references inside quoted text (`/function ns:x` in click events) and the test that a line is a complete command (not blank, "
         "no `execute ... run` with nothing behind it) are checked by the direct scan of the real output only; Model/Alloc.v's "
         "scanners and C07_lines speak about word-separated references and non-empty newline-free lines",
     ]
-    ck.proof(extra_targets=["Run/C07.vo"])
+    pr = ck.proof(extra_targets=["Run/C07.vo"])
+    ck.cov["core_closure_theorems"] = [t for t in pr.get("theorems", []) if t.startswith(("C07_core_", "C07_calls_", "C07_macro_"))]
     from lib import gen_dir
     gen_dir(PROP)
     reported: set = set()
